@@ -150,6 +150,7 @@ type Case struct {
 	Chains    []string `json:"chains,omitempty"`
 	PeerKnown bool     `json:"peer_known"`
 	BadChains []string `json:"bad_chains,omitempty"`
+	Tgw       []string `json:"tgw,omitempty"`
 	GotSvcs   []string `json:"got_svcs,omitempty"`
 	GotChains []string `json:"got_chains,omitempty"`
 	// replay material: the raw events in a form the harness can re-run
@@ -546,6 +547,9 @@ func mkNode(r *rand.Rand, name, id string) *structs.Node {
 	if r.Intn(4) == 0 {
 		n.TaggedAddresses = map[string]string{"wan": "192.168.0.1"}
 	}
+	if r.Intn(8) == 0 {
+		n.Locality = &structs.Locality{Region: "r1", Zone: pick(r, []string{"a", "b"})}
+	}
 	return n
 }
 
@@ -865,6 +869,12 @@ func malformed(r *rand.Rand, name string) []structs.CheckServiceNode {
 			ids = []string{"x1"}
 		}
 		s := mkSvc(r, sname, pick(r, ids))
+		switch r.Intn(10) {
+		case 0:
+			s.Connect.Native = true
+		case 1:
+			s.Kind = structs.ServiceKindMeshGateway
+		}
 		if r.Intn(4) == 0 { // a proxy that names upstreams
 			s.Kind = structs.ServiceKindConnectProxy
 			s.Proxy.DestinationServiceName = pick(r, svcNames)
@@ -1347,7 +1357,6 @@ func canonView(peer string, nodes structs.CheckServiceNodes, stripVIP bool) []vi
 	for _, c := range nodes {
 		n := nodeRow(c.Node)
 		n.Peer = peer
-		n.Loc = ""
 		s := svcRow(c.Node.Node, c.Service)
 		s.Peer = peer
 		if stripVIP {
@@ -1533,7 +1542,12 @@ func viewDiffs(want, have []viewInst) []vdiff {
 		if !ok {
 			continue
 		}
-		if w.Node != h.Node || !reflect.DeepEqual(w.Svc, h.Svc) {
+		wn, hn := w.Node, h.Node
+		if wn.Loc != hn.Loc {
+			out = append(out, vdiff{"node-locality", w.Node.Name, w.Svc.ID, hn.Loc})
+		}
+		wn.Loc, hn.Loc = "", ""
+		if wn != hn || !reflect.DeepEqual(w.Svc, h.Svc) {
 			out = append(out, vdiff{"content", w.Node.Name, w.Svc.ID, ""})
 		}
 		wc, hc := map[string]ChkRow{}, map[string]ChkRow{}
@@ -1579,6 +1593,11 @@ func diffCause(cl snapClass, d vdiff) string {
 		}
 	}
 	switch d.kind {
+	case "node-locality":
+		// Node.ToRegisterRequest does not carry Locality: imported nodes never have one
+		if d.cid == "" {
+			return "node-locality-dropped"
+		}
 	case "missing-instance":
 		if cl.oldNames[d.node] {
 			return "node-id-moves"
@@ -1699,7 +1718,9 @@ func newWorld(seed int64, id int, vip bool, resp bool) *world {
 	r := rand.New(rand.NewSource(seed*1000003 + int64(id)))
 	w := &world{r: r, im: newImporter(vip), ex: newExporter(), vip: vip, resp: resp, id: id}
 	seedImporter(r, w.im)
-	if id%3 == 1 {
+	// local wildcard gateways only in the oracle-only worlds: gateway-services is outside the
+	// Coq model (and the defect recorded as C17-gateway-services-imported also writes mesh-topology)
+	if (vip || resp) && id%2 == 1 {
 		seedGateways(w.im)
 	}
 	for i := 0; i < 3+r.Intn(5); i++ {
@@ -1946,6 +1967,23 @@ func exportCase(r *rand.Rand, id int) *Case {
 				panic(err)
 			}
 			chains = append(chains, n)
+		}
+	}
+	// a terminating gateway that serves some names: they are exported as connect services
+	if r.Intn(3) == 0 {
+		tg := &structs.TerminatingGatewayConfigEntry{Kind: structs.TerminatingGateway, Name: "tgw"}
+		for _, n := range []string{"db", "cache", "api"} {
+			if r.Intn(2) == 0 {
+				tg.Services = append(tg.Services, structs.LinkedService{Name: n})
+				c.Tgw = append(c.Tgw, n)
+			}
+		}
+		if err := tg.Normalize(); err != nil {
+			panic(err)
+		}
+		idx++
+		if err := s.EnsureConfigEntry(idx, tg); err != nil {
+			panic(err)
 		}
 	}
 	// exported-services entry
